@@ -29,6 +29,11 @@ class CallMixin:
         # logging is dropped (documented extraction drop)
         if isinstance(fn, ast.Attribute) and isinstance(fn.value, ast.Name) and fn.value.id == "logging":
             return None
+        if isinstance(fn, ast.Attribute) and isinstance(fn.value, ast.Name) and fn.value.id not in st.env and fn.value.id not in st.ghost \
+                and type(getattr(self.realmod, fn.value.id, None)).__name__ in ("Logger", "RootLogger") \
+                and fn.attr in ("debug", "info", "warning", "error", "critical", "exception", "log"):
+            # the same drop for a module-level logger object (logger = logging.getLogger(__name__); logger.debug(...))
+            return None
         if isinstance(fn, ast.Attribute):
             recv = self.ev(fn.value, st)
             if isinstance(recv, VConc) and type(recv.obj).__name__ == "module" and len(node.args) == 1 and isinstance(node.args[0], ast.Starred):
@@ -405,7 +410,19 @@ class CallMixin:
                 # unless the model declares itself pure.
                 if not getattr(ext, "pure", False) and (self.enclosing_loop.get(id(getattr(self, "cur_stmt", None))) is not None
                                                         or getattr(self, "binders", ())):
-                    raise Unsupported(f"heap-writing external method {qual} called inside a loop / comprehension")
+                    # ... or names the heap fields it may write (attribute `writes`) and every loop around the statement
+                    # declares them in its contract (`writes`): those fields are then unknown at the loop head like any field
+                    # the body assigns (st_For / st_While) - the same protocol as for `x += y` through Cls.__iadd__ (st_AugAssign)
+                    fields_ = getattr(ext, "writes", None)
+                    k_ = self.enclosing_loop.get(id(getattr(self, "cur_stmt", None)))
+                    if fields_ is None or getattr(self, "binders", ()) or k_ is None:
+                        raise Unsupported(f"heap-writing external method {qual} called inside a loop / comprehension")
+                    while k_ is not None:
+                        lc_ = self.cur_loops.get(k_)
+                        declared = set(lc_.get("writes", ())) if isinstance(lc_, dict) else set()
+                        if not set(fields_) <= declared:
+                            raise Unsupported(f"{qual} is called in loop #{k_}, whose contract does not declare `writes` for {fields_}")
+                        k_ = getattr(self, "loop_parent", {}).get(k_)
                 self.used_externals.add(qual)
                 return ext(self, [recv] + args, kwargs, node, st)
             # attribute holding a callable? not supported; attribute value called
@@ -420,6 +437,12 @@ class CallMixin:
                 # a dict with a fixed set of string keys, modelled as a record (class entry "dict_keys": True - the dict has
                 # exactly the record's field names as keys): d.get(k, default) is d[k] for a key, else the default
                 return recv.fields[args[0]] if args[0] in recv.fields else (args[1] if len(args) > 1 else None)
+            ext = self.externals.get(qual)
+            if ext is not None and getattr(ext, "pure", False):
+                # method of an immutable value object of a third-party class, given by an assumed contract of the sidecar
+                # (trusted base, listed like every external); it must declare itself pure (no heap write)
+                self.used_externals.add(qual)
+                return ext(self, [recv] + args, kwargs, node, st)
             raise Unsupported(f"method {qual}")
         if isinstance(recv, VFunc) and recv.kind == "class":
             qual = f"{recv.payload}.{name}"
@@ -827,7 +850,48 @@ class CallMixin:
         if is_real(v) and is_leaf(v) and len(args) == 1:
             # int(x) of a (finite) real: truncation towards zero (floats are modelled as reals, no nan / inf)
             return z3.If(v >= 0, z3.ToInt(v), -z3.ToInt(-v))
+        if len(args) == 1 and not kw and (v is None or isinstance(v, VOpt)):
+            # int(None) raises TypeError ("int() argument must be a string, a bytes-like object or a real number, not
+            # 'NoneType'"); an Optional value: that when it is None, otherwise int() of its payload
+            if v is None:
+                self.may_raise(True, "TypeError", node)
+                return 0
+            self.may_raise(v.isnone, "TypeError", node)
+            self.guard.append(NOT(v.isnone))
+            try:
+                return self.bi_int([v.val], kw, node, st)
+            finally:
+                self.guard.pop()
+        r = self.conv_dunder("__int__", v, node, st) if len(args) == 1 and not kw else self._NO_CONV
+        if r is not self._NO_CONV:
+            return r
         raise Unsupported("int() of this value")
+
+    _NO_CONV = object()
+
+    def conv_dunder(self, dunder, v, node, st):
+        """int(x) / float(x) / str(x) for x an object (or immutable value object) of a third-party class whose special method
+        `Cls.__int__` / `Cls.__float__` / `Cls.__str__` the sidecar supplies as an assumed external (trusted base, listed like
+        every external): the conversion is x.__int__() etc.  For an Optional x: int(None) / float(None) raise TypeError and
+        str(None) is 'None'; otherwise the conversion of the payload.  _NO_CONV: not such a value (the caller goes on)."""
+        if isinstance(v, VOpt):
+            self.guard.append(NOT(v.isnone))
+            try:
+                r = self.conv_dunder(dunder, v.val, node, st)
+            finally:
+                self.guard.pop()
+            if r is self._NO_CONV:
+                return r
+            if dunder == "__str__":
+                return self.merge(v.isnone, "None", r)
+            self.may_raise(v.isnone, "TypeError", node)
+            return r
+        if isinstance(v, (VRef, VRec)):
+            ext = self.externals.get(f"{v.cls}.{dunder}")
+            if ext is not None and getattr(ext, "pure", False):
+                self.used_externals.add(f"{v.cls}.{dunder}")
+                return ext(self, [v], {}, node, st)
+        return self._NO_CONV
 
     def ext_int_of_str(self, v, node, st):
         """int(s): ValueError unless s (after stripping) is an optionally signed decimal; value = uninterpreted py_int(s)
@@ -853,6 +917,10 @@ class CallMixin:
         return self.ufuns[name]
 
     def bi_str(self, args, kw, node, st):
+        if len(args) == 1 and not kw and isinstance(args[0], (VRef, VRec, VOpt)):
+            r = self.conv_dunder("__str__", args[0], node, st)  # str(x) through a sidecar external Cls.__str__ (see conv_dunder)
+            if r is not self._NO_CONV:
+                return r
         return self.to_str(args[0])
 
     def bi_bool(self, args, kw, node, st):
@@ -1054,6 +1122,9 @@ class CallMixin:
             ok = self.ufun("py_float_ok", z3.StringSort(), z3.BoolSort())
             self.may_raise(NOT(ok(z)), "ValueError", node)
             return self.ufun("py_float", z3.StringSort(), z3.RealSort())(z)
+        r = self.conv_dunder("__float__", v, node, st) if len(args) == 1 and not kw else self._NO_CONV
+        if r is not self._NO_CONV:
+            return r
         raise Unsupported("float() of this value")
 
     def bi_sorted(self, args, kw, node, st):
@@ -1067,6 +1138,24 @@ class CallMixin:
     def bi_dict(self, args, kw, node, st):
         if not args and not kw:
             return VConc({})  # dict(): an empty dict (a constant: reads only - a store into it is rejected by assign_to)
+        if len(args) == 1 and not kw and isinstance(args[0], VZip) and len(args[0].parts) == 2 and not self.spec and not self.binders \
+                and all(isinstance(p_, VList) and p_.elems is not None and not isinstance(p_.length, int) for p_ in args[0].parts):
+            # dict(zip(K, V)) for two lists of symbolic length: zip yields the pairs (K[q], V[q]) for q < min(len(K), len(V)) and
+            # dict() stores them in that order - exactly the dict comprehension {k: v for (k, v) in zip(K, V)} (insertion-ordered;
+            # a repeated key keeps its first position and takes the last value).  Evaluated as that comprehension (ev_DictComp)
+            # over the list of pairs, which as a value is the list of length min(len(K), len(V)) whose element q is (K[q], V[q]).
+            K, V = args[0].parts
+            lk, lv = to_z3(K.length), to_z3(V.length)
+            pairs = VList(z3.If(lk <= lv, lk, lv), VTuple([K.elems, V.elems]), ("tuple", (K.eshape, V.eshape)))
+            kn, vn, itn = "dictzip!k", "dictzip!v", "dictzip!it"
+            comp = ast.DictComp(key=ast.Name(id=kn, ctx=ast.Load()), value=ast.Name(id=vn, ctx=ast.Load()),
+                                generators=[ast.comprehension(target=ast.Tuple(elts=[ast.Name(id=kn, ctx=ast.Store()), ast.Name(id=vn, ctx=ast.Store())], ctx=ast.Store()),
+                                                              iter=ast.Name(id=itn, ctx=ast.Load()), ifs=[], is_async=0)])
+            st.env[itn] = pairs
+            try:
+                return self.ev_DictComp(ast.fix_missing_locations(ast.copy_location(comp, node)), st)
+            finally:
+                del st.env[itn]
         raise Unsupported("dict()")
 
     def bi_frozenset(self, args, kw, node, st):
